@@ -976,6 +976,7 @@ class Program:
         self.impls = []
         self.consts = defaultdict(list)
         self.crates = []
+        self.statics = {}
         for r in recs:
             k = r["rec"]
             if include_crates and r.get("crate") not in include_crates:
@@ -996,6 +997,8 @@ class Program:
                 self.consts[r["def"]].append(r)
             elif k == "crate":
                 self.crates.append(r)
+            elif k == "static":
+                self.statics[r["def"]] = r
         self._cg = None
         self._rcg = None
         self._trait_impls = None
